@@ -305,6 +305,7 @@ impl<S: Read> Master<S> {
             }
         }
         process.complete()?;
+        self.stdout.borrow_mut().flush()?;
         Ok(())
     }
 
